@@ -113,6 +113,12 @@ def malformed_twins(rng, s):
         cut = rng.randrange(m.start() + 1, m.end())
         out.append(body[:cut] + ' ' + body[cut:])
     if iso:
+        # structure: the 'T' designator is what separates the time elements from the date part
+        # (and minutes from months); without it the string is not a duration.  (A dangling 'T'
+        # as in 'P1DT' is accepted by edzed and not documented as an error: not judged.)
+        if 'T' in body and rng.random() < 0.5 and re.search(r'[HS]', body.split('T', 1)[1]):
+            # (a lone minutes element would turn into months: refused unless zero - not used)
+            out.append(body.replace('T', ''))
         r = rng.random()
         if r < 0.3 and body.lower() != body:
             out.append(body.lower())        # lower case is for the traditional format only
@@ -127,9 +133,17 @@ def malformed_twins(rng, s):
     return out
 
 
+BLOCK_TIMEOUTS = [(None, 0), (0, 0), (0.0, 0), (-1, 0), (-0.5, 0), ('0s', 0), ('0m0s', 0),
+                  ('PT0S', 0), ('0', 0), ('P0DT0H', 0), (2.5, '5/2'), ('1m', 60), ('PT1M30S', 90),
+                  ('1d', 86400), (1, 1), ('0.5s', '1/2'), ('1h 1s', 3601)]
+
+
 def gen(ctx):
     rng = ctx.rng('gen')
     quick = ctx.tier == 'quick'
+    for i, (v, secs) in enumerate(BLOCK_TIMEOUTS):
+        if i % ctx.nshards == ctx.shard:
+            yield {'kind': 'block_timeout', 'v': v, 'seconds': str(secs)}
     n_conv = 1500 if quick else 300000
     n_num = 3000 if quick else 1000000
     shard, nsh = ctx.shard, ctx.nshards
@@ -340,6 +354,51 @@ def run_case(case, ctx):
                 raise core.Violation(
                     'approx-error', f"timestr_approx({x!r}) = {a!r} -> {back}, step {step}")
             ctx.case_done(case, True, {'x': x, 'prec': prec, 'timestr': s, 'approx': a})
+            return
+        if kind == 'block_timeout':
+            # the same conversion where blocks take durations: the time-outs of the asynchronous
+            # add-on (None = the documented default of 10 s, zero/negative = 0 = disabled)
+            import edzed
+            edzed.reset_circuit()
+
+            class TB(edzed.AddonAsync, edzed.SBlock):
+                async def init_async(self):
+                    pass
+
+                async def stop_async(self):
+                    pass
+            v = case['v']
+            blk = TB(None, init_timeout=v, stop_timeout=v)
+            exp = 10.0 if v is None else max(0.0, float(Fraction(case['seconds'])))
+            ctx.count('block_timeout_checks')
+            for attr in ('init_timeout', 'stop_timeout'):
+                got = getattr(blk, attr)
+                if not isinstance(got, float) or abs(got - exp) > 1e-9 * max(1.0, exp):
+                    raise core.Violation(
+                        'block-timeout-value',
+                        f"block created with {attr}={v!r}: attribute is {got!r}, expected {exp!r}")
+            # ... and where a block compares two durations with each other: an output block's
+            # guard_time (any notation) must not exceed its stop_timeout (any notation)
+            async def job(value):
+                pass
+            for g in (0, '0s', None, exp, f"PT{exp}S" if exp == int(exp) else exp):
+                g_sec = 0.0 if g in (0, '0s', None) else exp
+                try:
+                    oa = edzed.OutputAsync(None, coro=job, mode='wait', guard_time=g,
+                                           stop_timeout=v, on_error=None)
+                except Exception as err:
+                    raise core.Violation(
+                        'block-timeout-value',
+                        f"OutputAsync(guard_time={g!r} (= {g_sec} s), stop_timeout={v!r} "
+                        f"(= {exp} s)) refused: {err!r}")
+                ctx.count('block_timeout_checks')
+                if not isinstance(oa.stop_timeout, float) or abs(oa.stop_timeout - exp) > 1e-9 * max(1.0, exp):
+                    raise core.Violation(
+                        'block-timeout-value',
+                        f"OutputAsync created with stop_timeout={v!r}: attribute is "
+                        f"{oa.stop_timeout!r}, expected {exp!r}")
+            edzed.reset_circuit()
+            ctx.case_done(case, True, {'timeout_argument': repr(v), 'seconds': exp})
             return
         if kind == 'period':
             v = case['v']
